@@ -446,6 +446,16 @@ func (l *Lowerer) invClauses(ls *LoopSpec, hidden map[string]envEntry, kind stri
 	}
 }
 
+func loopBodyEnd(n ast.Node) token.Pos {
+	switch x := n.(type) {
+	case *ast.ForStmt:
+		return x.Body.Rbrace
+	case *ast.RangeStmt:
+		return x.Body.Rbrace
+	}
+	return n.End()
+}
+
 func loopBodyPos(n ast.Node) token.Pos {
 	switch x := n.(type) {
 	case *ast.ForStmt:
@@ -709,7 +719,9 @@ func (l *Lowerer) iterEnd(ls *LoopSpec, hidden map[string]envEntry, ord int, nod
 	}
 	for _, c := range ls.IterEnsures {
 		savedPos := l.specPos
-		l.specPos = loopBodyPos(node)
+		// names are resolved at the end of the loop body: the variables declared at the top level of the body
+		// are in scope there (they hold their zero value on paths that skipped their declaration)
+		l.specPos = loopBodyEnd(node)
 		t := l.specTerm(c, hidden)
 		l.specPos = savedPos
 		lbl := loopLabel(ord, ls)
@@ -914,9 +926,11 @@ func (l *Lowerer) rangeStmt(x *ast.RangeStmt, label string) {
 			setKV(x.Value, ev, u.Elem())
 		}
 		hidden["$k"] = envEntry{kv, u.Key()}
+		l.iterStart(ls)
 		l.block(x.Body)
 		l.jump(post)
 		l.cur = post
+		l.iterEnd(ls, hidden, ord, x)
 		l.invClauses(ls, hidden, "inv-preserve", ord, x)
 		li.LastBody = len(l.f.Blocks) - 1
 		l.cur = nil
